@@ -986,7 +986,7 @@ PROPS = {
     "C02": dict(module="FV.Props.C02", theorems=["FV.Props.C02_view_within", "FV.Props.C02_truncation_validates", "FV.Props.C02_deep_read_total"], suites=["bytes"], proj=proj_C02, oracle=oracle_C02),
     "C04": dict(module="FV.Props.C04", theorems=["FV.Props.C04_view_fits", "FV.Props.C04_ceil_least", "FV.Props.C04_floor_greatest", "FV.Props.C04_positions_eq_c", "FV.Props.C04_struct_size_eq_c", "FV.Props.C04_enum_data_offset_eq_c", "FV.Props.C04_vec_data_offset_eq_c"], suites=["bytes"], proj=proj_C04, oracle=oracle_C04),
     "C05": dict(module="FV.Props.C05", theorems=["FV.Props.C05_size_exact", "FV.Props.C05_truncation_same_content"], suites=["bytes", "emplace"], proj=proj_C05, oracle=oracle_C05),
-    "C03": dict(module="FV.Props.C03Full", theorems=["FV.Props.C03_emplace_reads_back", "FV.Props.C03_image_is_serialisation_partial", "FV.Props.C03_emplace_validates_partial", "FV.Props.C03_vec_from_iterator", "FV.emplaceU_ok", "FV.emplaceU_content", "FV.flexFill_spec", "FV.flexFill_content"], suites=["emplace"], proj=proj_C03, oracle=oracle_C03),
+    "C03": dict(module="FV.Props.C03Full", theorems=["FV.Props.C03_emplace_reads_back", "FV.Props.C03_portable_image_is_serialisation", "FV.Props.C03_emplace_validates_partial", "FV.Props.C03_vec_from_iterator", "FV.emplaceU_ok", "FV.emplaceU_content", "FV.flexFill_spec", "FV.flexFill_content"], suites=["emplace"], proj=proj_C03, oracle=oracle_C03),
     "C15": dict(module="FV.Props.C15", theorems=["FV.Props.C15_emplace_total_partial", "FV.Props.C15_vec_accepts_iff_fits"], suites=["emplace"], proj=proj_C15, oracle=oracle_C15, post=post_C15),
     "C18": dict(module="FV.Props.C18", theorems=["FV.Props.C18_vec_from_iterator_partial", "FV.Props.C18_flex_from_iterator_partial", "FV.Props.C18_nested_enum_counterexample"], suites=["emplace"], proj=proj_C18, oracle=oracle_C18),
     "C20": dict(module="FV.Props.C20", theorems=["FV.Props.C20_vec_default_partial", "FV.Props.C20_default_valid_partial", "FV.Props.C20_default_content", "FV.Props.C20_str_default_partial", "FV.Props.C20_flex_default_partial"], suites=["emplace"], proj=proj_C20, oracle=oracle_C20, post=post_C20),
@@ -999,7 +999,7 @@ PROPS = {
     "C09": dict(module="FV.Props.C09", theorems=["FV.Props.C09_send_fault", "FV.Props.C09_session_sink_shape", "FV.Props.C09_read_error_keeps_bytes"], suites=["io", "aio"], proj=proj_C09, oracle=oracle_io_basic, post=post_io("C09")),
     "C10": dict(module="FV.Props.C10", theorems=["FV.Props.C10_recv_never_faults", "FV.Props.C10_flex_bad_offset_is_content_error"], suites=["io", "aio"], proj=proj_C10, oracle=oracle_io_basic, post=post_io("C10")),
     "C16": dict(module="FV.Props.C16", theorems=["FV.Props.C16_size", "FV.Props.C16_byte_order", "FV.Props.C16_native_roundtrip", "FV.Props.C16_bytes_roundtrip", "FV.Props.C16_eq_iff", "FV.Props.C16_delegates", "FV.Props.C16_bool_validate"], suites=["portable"], proj=proj_C16, oracle=oracle_C16),
-    "C17": dict(module="FV.Props.C17Ser", theorems=["FV.Props.C17_align_one", "FV.Props.C17_no_padding", "FV.Props.C17_image_is_serialisation_partial", "FV.emplaceU_ser"], suites=["emplace", "bytes"], proj=proj_C17, oracle=oracle_C17, post=post_C17),
+    "C17": dict(module="FV.Props.C17Ser", theorems=["FV.Props.C17_align_one", "FV.Props.C17_no_padding", "FV.Props.C17_image_is_serialisation", "FV.emplaceU_ser", "FV.flexFill_ser"], suites=["emplace", "bytes"], proj=proj_C17, oracle=oracle_C17, post=post_C17),
     "C19": dict(module="FV.Props.C19", theorems=["FV.Props.C19_bool", "FV.Props.C19_tag", "FV.Props.C19_fields", "FV.Props.C19_array", "FV.Props.C19_vec_elems"], suites=["bytes"], proj=proj_C19, oracle=oracle_C19),
     "C06": dict(module="FV.Props.C06", theorems=["FV.Props.C06_prefix_insufficient", "FV.Props.C06_extension_same", "FV.Props.C06_extension_same_content"], suites=["bytes"], proj=proj_C06, oracle=oracle_C06),
 }
